@@ -1,6 +1,9 @@
 import GramModel.Lemmas.Eval
 import GramModel.Lemmas.DeBruijn
 import GramModel.Check
+import GramModel.Oracle
+import GramModel.Typing
+import GramModel.Lemmas.RewriteTyping
 
 /-!
 # C19 — meaning-preserving rewrites change neither acceptance nor result
@@ -261,3 +264,485 @@ theorem C19_names_irrelevant_step : C19_names_irrelevant_step_stmt := eraseNames
 def C19_names_irrelevant_eval_stmt : Prop :=
   ∀ (n : Nat) (t : Tm), evalFuel n (eraseNames t) = eraseNames (evalFuel n t)
 theorem C19_names_irrelevant_eval : C19_names_irrelevant_eval_stmt := eraseNames_evalFuel
+
+/-! ### `eraseNames` commutes with the independent checker (helper lemmas for `C19_typing_names`) -/
+
+section NamesOracle
+open FuelLemmas OracleLemmas RewriteTyping
+
+mutual
+theorem eraseX_eraseNames : ∀ (t : Tm), eraseX (eraseNames t) = eraseX t
+  | .var _ _ | .hole _ _ | .type | .int | .bool | .tt | .ff | .lit _ => by simp [eraseNames, eraseX]
+  | .lam _ _ d b => by simp [eraseNames, eraseX, eraseX_eraseNames b]
+  | .pi _ _ d b => by simp [eraseNames, eraseX, eraseX_eraseNames d, eraseX_eraseNames b]
+  | .app f a => by simp [eraseNames, eraseX, eraseX_eraseNames f, eraseX_eraseNames a]
+  | .letg ds b => by simp [eraseNames, eraseX, eraseDefsX_eraseNames ds, eraseX_eraseNames b]
+  | .neg a => by simp [eraseNames, eraseX, eraseX_eraseNames a]
+  | .bin _ a b => by simp [eraseNames, eraseX, eraseX_eraseNames a, eraseX_eraseNames b]
+  | .ite c a b => by
+      simp [eraseNames, eraseX, eraseX_eraseNames c, eraseX_eraseNames a, eraseX_eraseNames b]
+theorem eraseDefsX_eraseNames : ∀ (ds : Defs), eraseDefsX (eraseNamesDefs ds) = eraseDefsX ds
+  | .nil => by simp [eraseNamesDefs, eraseDefsX]
+  | .cons _ a d r => by
+      simp [eraseNamesDefs, eraseDefsX, eraseX_eraseNames d, eraseDefsX_eraseNames r]
+end
+
+theorem sameX_eraseNames (a b : Tm) : sameX (eraseNames a) (eraseNames b) = sameX a b := by
+  rw [Bool.eq_iff_iff, sameX_iff, sameX_iff, eraseX_eraseNames, eraseX_eraseNames]
+
+theorem eraseNames_letAllX : ∀ (f : Nat) (ds : Defs) (b : Tm),
+    letAllX f (eraseNamesDefs ds) (eraseNames b) = (letAllX f ds b).map eraseNames
+  | 0, _, _ => by simp [letAllX]
+  | f+1, .nil, b => by simp [letAllX, eraseNamesDefs]
+  | f+1, .cons x a d r, b => by
+      simp only [letAllX, eraseNamesDefs, letStepX, eraseNamesDefs_len]
+      rw [eraseNames_unfoldDef x a d r.len, eraseNames_openT, eraseNamesDefs_openDefs]
+      exact eraseNames_letAllX f _ _
+
+/-- forget the names in a definitions context / a typing context -/
+def eraseNamesD (Δ : DCtxX) : DCtxX := Δ.map (Option.map (fun p => (eraseNames p.1, p.2)))
+def eraseNamesG (Γ : TCtxX) : TCtxX := Γ.map (fun p => (eraseNames p.1, p.2))
+
+theorem eraseNamesD_cons (e : Option (Tm × Nat)) (Δ : DCtxX) :
+    eraseNamesD (e :: Δ) = e.map (fun p => (eraseNames p.1, p.2)) :: eraseNamesD Δ := rfl
+
+theorem eraseNames_whnfX : ∀ (f : Nat) (Δ : DCtxX) (t : Tm),
+    whnfX f (eraseNamesD Δ) (eraseNames t) = (whnfX f Δ t).map eraseNames := by
+  intro f
+  induction f with
+  | zero => intro Δ t; simp [whnfX]
+  | succ f ih =>
+    intro Δ t
+    cases t
+    case var x i =>
+      simp only [eraseNames]
+      unfold whnfX
+      simp only [eraseNamesD, List.getElem?_map]
+      cases hd : Δ[i]? with
+      | none => simp
+      | some e =>
+        cases e with
+        | none => simp [eraseNames]
+        | some p =>
+          obtain ⟨d, off⟩ := p
+          simp only [Option.map_some]
+          split
+          · simp
+          · rw [eraseNames_ushift]; exact ih Δ _
+    case app g a =>
+      simp only [eraseNames]
+      unfold whnfX
+      simp only [ih Δ g]
+      cases whnfX f Δ g with
+      | none => simp
+      | some g' =>
+        cases g' <;> simp only [Option.map_some, eraseNames]
+        case lam x im d body => rw [eraseNames_openT]; exact ih Δ _
+    case letg ds b =>
+      simp only [eraseNames]
+      unfold whnfX
+      simp only [eraseNames_letAllX]
+      cases letAllX (f+1) ds b with
+      | none => simp
+      | some b' => simp only [Option.map_some]; exact ih Δ _
+    case neg a =>
+      simp only [eraseNames]
+      unfold whnfX
+      simp only [ih Δ a]
+      cases whnfX f Δ a with
+      | none => simp
+      | some a' => cases a' <;> simp only [Option.map_some, eraseNames]
+    case bin op a b =>
+      simp only [eraseNames]
+      unfold whnfX
+      simp only [ih Δ a, ih Δ b]
+      cases whnfX f Δ a with
+      | none => simp
+      | some a' =>
+        cases whnfX f Δ b with
+        | none => cases a' <;> simp [eraseNames]
+        | some b' =>
+          cases a' <;> cases b' <;> simp only [Option.map_some, eraseNames]
+          case lit.lit x y =>
+            have := eraseNames_delta op x y
+            cases hd : delta op x y with
+            | none => simp [eraseNames]
+            | some r => rw [hd] at this; simp at this; simp [this]
+    case ite c a b =>
+      simp only [eraseNames]
+      unfold whnfX
+      simp only [ih Δ c]
+      cases whnfX f Δ c with
+      | none => simp
+      | some c' =>
+        cases c' <;> simp only [Option.map_some, eraseNames]
+        case tt => exact ih Δ _
+        case ff => exact ih Δ _
+    all_goals (unfold whnfX; simp [eraseNames])
+
+theorem eraseNames_convX : ∀ (f : Nat) (Δ : DCtxX) (a b : Tm),
+    convX f (eraseNamesD Δ) (eraseNames a) (eraseNames b) = convX f Δ a b := by
+  intro f
+  induction f with
+  | zero => intro Δ a b; simp [convX]
+  | succ f ih =>
+    intro Δ a b
+    unfold convX
+    rw [sameX_eraseNames, eraseNames_whnfX, eraseNames_whnfX]
+    split
+    · rfl
+    · cases whnfX f Δ a with
+      | none => simp
+      | some wa =>
+        cases whnfX f Δ b with
+        | none => simp
+        | some wb =>
+          have hn : ∀ Δ : DCtxX, (none :: eraseNamesD Δ) = eraseNamesD (none :: Δ) := fun _ => rfl
+          cases wa <;> cases wb <;> simp only [Option.map_some, eraseNames, hn, ih]
+
+theorem eraseNames_isTypeX (f : Nat) (Δ : DCtxX) (ty : Tm) :
+    isTypeX f (eraseNamesD Δ) (eraseNames ty) = isTypeX f Δ ty := by
+  have h := eraseNames_convX f Δ ty .type
+  simp only [eraseNames] at h
+  unfold isTypeX; rw [h]
+
+theorem eraseNames_expectX (f : Nat) (Δ : DCtxX) (a b : Tm) (e : XErr) :
+    expectX f (eraseNamesD Δ) (eraseNames a) (eraseNames b) e = expectX f Δ a b e := by
+  unfold expectX; rw [eraseNames_convX]
+
+theorem eraseNamesG_cons (d : Tm) (o : Nat) (Γ : TCtxX) :
+    (eraseNames d, o) :: eraseNamesG Γ = eraseNamesG ((d, o) :: Γ) := rfl
+theorem eraseNamesD_none (Δ : DCtxX) : none :: eraseNamesD Δ = eraseNamesD (none :: Δ) := rfl
+theorem eraseNamesD_some (d : Tm) (o : Nat) (Δ : DCtxX) :
+    some (eraseNames d, o) :: eraseNamesD Δ = eraseNamesD (some (d, o) :: Δ) := rfl
+
+theorem eraseNames_pushGroupX_go : ∀ (ds : Defs) (k : Nat) (Γ : TCtxX) (Δ : DCtxX),
+    pushGroupX.go (eraseNamesDefs ds) k (eraseNamesG Γ, eraseNamesD Δ) =
+      (eraseNamesG (pushGroupX.go ds k (Γ, Δ)).1, eraseNamesD (pushGroupX.go ds k (Γ, Δ)).2)
+  | .nil, k, Γ, Δ => by simp [pushGroupX.go, eraseNamesDefs]
+  | .cons x a d r, k, Γ, Δ => by
+      simp only [pushGroupX.go, eraseNamesDefs, eraseNamesG_cons, eraseNamesD_some]
+      exact eraseNames_pushGroupX_go r (k-1) _ _
+
+theorem eraseNames_pushGroupX (ds : Defs) (n : Nat) (Γ : TCtxX) (Δ : DCtxX) :
+    pushGroupX (eraseNamesDefs ds) n (eraseNamesG Γ, eraseNamesD Δ) =
+      (eraseNamesG (pushGroupX ds n (Γ, Δ)).1, eraseNamesD (pushGroupX ds n (Γ, Δ)).2) := by
+  unfold pushGroupX
+  rw [eraseNamesDefs_len]
+  exact eraseNames_pushGroupX_go ds _ Γ Δ
+
+theorem eraseNames_inferX_aux : ∀ (f : Nat),
+    (∀ (Γ : TCtxX) (Δ : DCtxX) (t : Tm),
+      inferX f (eraseNamesG Γ) (eraseNamesD Δ) (eraseNames t) = (inferX f Γ Δ t).map eraseNames) ∧
+    (∀ (Γ : TCtxX) (Δ : DCtxX) (ds : Defs),
+      inferDefsX f (eraseNamesG Γ) (eraseNamesD Δ) (eraseNamesDefs ds) = inferDefsX f Γ Δ ds) := by
+  intro f
+  induction f with
+  | zero =>
+    exact ⟨fun _ _ _ => by simp [inferX, Except.map], fun _ _ _ => by simp [inferDefsX]⟩
+  | succ f ih =>
+    obtain ⟨ih1, ih2⟩ := ih
+    constructor
+    · intro Γ Δ t
+      cases t
+      case var x i =>
+        simp only [eraseNames]
+        unfold inferX
+        simp only [eraseNamesG, List.getElem?_map]
+        cases Γ[i]? with
+        | none => simp [Except.map]
+        | some p =>
+          obtain ⟨ty, off⟩ := p
+          simp only [Option.map_some]
+          split <;> simp [Except.map, eraseNames_ushift]
+      case lam x im d b =>
+        simp only [eraseNames]
+        unfold inferX
+        simp only [ih1, eraseNamesG_cons, eraseNamesD_none]
+        cases inferX f Γ Δ d with
+        | error e => rfl
+        | ok dty =>
+          simp only [Except.map, eraseNames_isTypeX]
+          cases isTypeX f Δ dty with
+          | error e => rfl
+          | ok _ =>
+            simp only
+            cases inferX f ((d, 0) :: Γ) (none :: Δ) b with
+            | error e => rfl
+            | ok cod => simp [eraseNames]
+      case pi x im d b =>
+        simp only [eraseNames]
+        unfold inferX
+        simp only [ih1, eraseNamesG_cons, eraseNamesD_none]
+        cases inferX f Γ Δ d with
+        | error e => rfl
+        | ok dty =>
+          simp only [Except.map, eraseNames_isTypeX]
+          cases isTypeX f Δ dty with
+          | error e => rfl
+          | ok _ =>
+            simp only
+            cases inferX f ((d, 0) :: Γ) (none :: Δ) b with
+            | error e => rfl
+            | ok cty =>
+              simp only [eraseNames_isTypeX]
+              cases isTypeX f (none :: Δ) cty with
+              | error e => rfl
+              | ok _ => simp [eraseNames]
+      case app g a =>
+        simp only [eraseNames]
+        unfold inferX
+        simp only [ih1]
+        cases inferX f Γ Δ g with
+        | error e => rfl
+        | ok gty =>
+          simp only [Except.map, eraseNames_whnfX]
+          cases whnfX f Δ gty with
+          | none => rfl
+          | some w =>
+            cases w <;> simp only [Option.map_some, eraseNames]
+            case pi x im dom cod =>
+              cases inferX f Γ Δ a with
+              | error e => rfl
+              | ok aty =>
+                simp only [eraseNames_expectX]
+                cases expectX f Δ aty dom .argMismatch with
+                | error e => rfl
+                | ok _ => simp [eraseNames_openT]
+            case hole id sh =>
+              cases inferX f Γ Δ a with
+              | error e => rfl
+              | ok aty => simp [eraseNames]
+      case letg ds body =>
+        simp only [eraseNames]
+        unfold inferX
+        simp only [eraseNames_pushGroupX, ih1, ih2]
+        cases inferDefsX f (pushGroupX ds 0 (Γ, Δ)).1 (pushGroupX ds 0 (Γ, Δ)).2 ds with
+        | error e => rfl
+        | ok _ =>
+          simp only
+          cases inferX f (pushGroupX ds 0 (Γ, Δ)).1 (pushGroupX ds 0 (Γ, Δ)).2 body with
+          | error e => rfl
+          | ok bty => simp [Except.map, eraseNames]
+      case neg a =>
+        simp only [eraseNames]
+        unfold inferX
+        simp only [ih1]
+        cases inferX f Γ Δ a with
+        | error e => rfl
+        | ok aty =>
+          have h := eraseNames_expectX f Δ aty .int .notInt
+          simp only [eraseNames] at h
+          simp only [Except.map, h]
+          cases expectX f Δ aty .int .notInt with
+          | error e => rfl
+          | ok _ => simp [eraseNames]
+      case bin op a b =>
+        simp only [eraseNames]
+        unfold inferX
+        simp only [ih1]
+        cases inferX f Γ Δ a with
+        | error e => rfl
+        | ok aty =>
+          have h := eraseNames_expectX f Δ aty .int .notInt
+          simp only [eraseNames] at h
+          simp only [Except.map, h]
+          cases expectX f Δ aty .int .notInt with
+          | error e => rfl
+          | ok _ =>
+            simp only
+            cases inferX f Γ Δ b with
+            | error e => rfl
+            | ok bty =>
+              have h := eraseNames_expectX f Δ bty .int .notInt
+              simp only [eraseNames] at h
+              simp only [h]
+              cases expectX f Δ bty .int .notInt with
+              | error e => rfl
+              | ok _ => cases op <;> simp [eraseNames]
+      case ite c a b =>
+        simp only [eraseNames]
+        unfold inferX
+        simp only [ih1]
+        cases inferX f Γ Δ c with
+        | error e => rfl
+        | ok cty =>
+          have h := eraseNames_expectX f Δ cty .bool .notBool
+          simp only [eraseNames] at h
+          simp only [Except.map, h]
+          cases expectX f Δ cty .bool .notBool with
+          | error e => rfl
+          | ok _ =>
+            simp only
+            cases inferX f Γ Δ a with
+            | error e => rfl
+            | ok aty =>
+              simp only
+              cases inferX f Γ Δ b with
+              | error e => rfl
+              | ok bty =>
+                simp only [eraseNames_expectX]
+                cases expectX f Δ aty bty .branches with
+                | error e => rfl
+                | ok _ => rfl
+      all_goals (unfold inferX; simp [eraseNames, Except.map])
+    · intro Γ Δ ds
+      cases ds
+      case nil => unfold inferDefsX; simp [eraseNamesDefs]
+      case cons x ann d r =>
+        simp only [eraseNamesDefs]
+        unfold inferDefsX
+        simp only [ih1, ih2]
+        cases inferX f Γ Δ ann with
+        | error e => rfl
+        | ok annTy =>
+          simp only [Except.map, eraseNames_isTypeX]
+          cases isTypeX f Δ annTy with
+          | error e => rfl
+          | ok _ =>
+            simp only
+            cases inferX f Γ Δ d with
+            | error e => rfl
+            | ok dty => simp only [eraseNames_expectX]
+
+theorem eraseNames_inferX (f : Nat) (Γ : TCtxX) (Δ : DCtxX) (t : Tm) :
+    inferX f (eraseNamesG Γ) (eraseNamesD Δ) (eraseNames t) = (inferX f Γ Δ t).map eraseNames :=
+  (eraseNames_inferX_aux f).1 Γ Δ t
+
+end NamesOracle
+
+/-! ## The rewrites do not change what the independent checker accepts -/
+
+open FuelLemmas OracleLemmas RewriteTyping
+
+/-- **Typing is invariant under the rewrites** (for the independent checker, which by `C03_infer_sound`
+is the declarative system's algorithm).  For a hole-free term `e` that the checker accepts at type `T`
+in hole-free contexts:
+* `if true then e else e` is accepted at `T`;
+* the annotated identity applied to it, `((x : A) => x) e` with `A` convertible to `T` and itself a type,
+  is accepted at a type convertible with `T`;
+* with an unused definition in front, `(u : int = n; e↑)`, it is accepted at a type convertible with `T`
+  (the group unfolds away);
+and names never matter: the checker's answer on a term only depends on the term up to names. -/
+def C19_typing_if_true_stmt : Prop :=
+  ∀ (f : Nat) (Γ : TCtxX) (Δ : DCtxX) (e T : Tm), inferX f Γ Δ e = .ok T →
+    ∃ g, inferX g Γ Δ (.ite .tt e e) = .ok T
+theorem C19_typing_if_true : C19_typing_if_true_stmt := by
+  intro f Γ Δ e T h
+  cases f with
+  | zero => simp [inferX] at h
+  | succ f =>
+    refine ⟨f+2, ?_⟩
+    have htt : inferX (f+1) Γ Δ .tt = .ok .bool := by unfold inferX; rfl
+    conv => lhs; unfold inferX
+    simp only [htt, h, expectX_same (sameX_refl _)]
+
+def C19_typing_identity_stmt : Prop :=
+  ∀ (f : Nat) (Γ : TCtxX) (Δ : DCtxX) (x : Name) (e T : Tm), e.holeFree = true → T.holeFree = true →
+    (∀ p ∈ Γ, p.1.holeFree = true) → (∀ p ∈ Δ, ∀ d o, p = some (d, o) → d.holeFree = true) →
+    inferX f Γ Δ e = .ok T → inferX f Γ Δ T = .ok .type →
+    ∃ g T', inferX g Γ Δ (.app (.lam x false T (.var x 0)) e) = .ok T' ∧ Conv Δ T' T
+theorem C19_typing_identity : C19_typing_identity_stmt := by
+  intro f Γ Δ x e T _ _ _ _ he hT
+  cases f with
+  | zero => simp [inferX] at he
+  | succ f =>
+    refine ⟨f+3, T, ?_, .refl _ _⟩
+    have hv : inferX (f+1) ((T, 0) :: Γ) (none :: Δ) (.var x 0) = .ok (ushift 0 1 T) := by
+      unfold inferX; simp
+    have hl : inferX (f+2) Γ Δ (.lam x false T (.var x 0)) = .ok (.pi x false T (ushift 0 1 T)) := by
+      conv => lhs; unfold inferX
+      simp only [hT, isTypeX_type, hv]
+    have hw : whnfX (f+2) Δ (.pi x false T (ushift 0 1 T)) = some (.pi x false T (ushift 0 1 T)) := by
+      unfold whnfX; rfl
+    have he' := inferX_mono _ _ _ _ _ he (ne_fuel_of_ok rfl)
+    conv => lhs; unfold inferX
+    simp only [hl, hw, he', expectX_same (sameX_refl _), open_ushift_cancel]
+
+def C19_typing_unused_def_unrestricted : Prop :=
+  ∀ (f : Nat) (Γ : TCtxX) (Δ : DCtxX) (u : Name) (n : Int) (e T : Tm), e.holeFree = true →
+    (∀ p ∈ Γ, p.1.holeFree = true) → (∀ p ∈ Δ, ∀ d o, p = some (d, o) → d.holeFree = true) →
+    inferX f Γ Δ e = .ok T →
+    ∃ g T', inferX g Γ Δ (.letg (.cons u .int (.lit n) .nil) (ushift 0 1 e)) = .ok T' ∧ Conv Δ T' T
+
+/-- `C19_typing_unused_def_unrestricted` is FALSE of the model as stated: it quantifies over arbitrary
+contexts, including ones no run of the checker can build, whose entries carry an offset that is *out of
+range* (`off > i + 1`: "stored deeper than the context is long").  Such an entry is invisible at its
+own depth (`scope` error / stuck normalizer) but becomes visible further in: with `off = i + 2`, one
+binder further in it is read with lift `0`, so variable `0` of its term refers to *that binder*; after
+an insertion in front of the context the same entry sits one position deeper and is read with lift `1`,
+so its variable `0` now refers to the inserted definition — the inserted definition is captured.
+Witness (an out-of-range entry in `Δ`):
+`Γ = [(int, 0)]`, `Δ = [some (x₀, 2)]`, `e = (y : if x₁ == 5 then int else bool = 5; 0)`.  Inside the
+group `x₁` unfolds to `y`, i.e. to `5`, the annotation is `int` and `e` is accepted; after inserting
+`u = 7` in front, the same entry unfolds to `u`, the annotation is `bool`, and the term is rejected
+with `defMismatch` at every fuel. -/
+theorem C19_typing_unused_def_refuted : ¬ C19_typing_unused_def_unrestricted := by
+  intro H
+  let ds : Defs := .cons 1 (.ite (.bin .eq (.var 0 1) (.lit 5)) .int .bool) (.lit 5) .nil
+  have h0 : inferX 9 [(.int, 0)] [some (.var 0 0, 2)] (.letg ds (.lit 0)) = .ok (.letg ds .int) := by rfl
+  obtain ⟨g, T', h1, _⟩ := H 9 [(.int, 0)] [some (.var 0 0, 2)] 0 7 (.letg ds (.lit 0)) _ rfl
+    (by intro p hp; simp only [List.mem_singleton] at hp; subst hp; rfl)
+    (by intro p hp d o he; simp only [List.mem_singleton] at hp; subst hp; cases he; rfl) h0
+  have h2 : inferX 9 [(.int, 0)] [some (.var 0 0, 2)]
+      (.letg (.cons 0 .int (.lit 7) .nil) (ushift 0 1 (.letg ds (.lit 0)))) = .error .defMismatch := by
+    rfl
+  rcases Nat.le_total g 9 with hle | hle
+  · have := FuelLemmas.inferX_mono_le hle h1 (FuelLemmas.ne_fuel_of_ok rfl)
+    rw [h2] at this; cases this
+  · have := FuelLemmas.inferX_mono_le hle h2 (by intro c; cases c)
+    rw [h1] at this; cases this
+
+/-- An out-of-range offset in the *typing* context breaks the statement as well, this time without
+changing acceptance: with `Γ = [(x₀, 2)]`, `Δ = [none]`, `e = (y : int = 1; x₁)` the checker computes
+`T = (y : int = 1; y)`, and for `(u : int = 2; e↑)` it computes `T' = (u : int = 2; y : int = 1; u)` —
+the entry's type `x₀` was captured by `y` before and by `u` after the insertion.  `T` normalises to `1`
+and `T'` to `2`; the checker's own conversion test answers `false`.  (That `Conv` itself separates `1`
+from `2` would need its consistency — confluence —, which is not proved in this development; hence
+this is stated for the algorithm.) -/
+def C19_typing_unused_def_ctx_witness_stmt : Prop :=
+  let ds : Defs := .cons 1 .int (.lit 1) .nil
+  let T : Tm := .letg ds (.var 0 0)
+  let T' : Tm := .letg (.cons 7 .int (.lit 2) .nil) (.letg ds (.var 0 1))
+  inferX 3 [(.var 0 0, 2)] [none] (.letg ds (.var 0 1)) = .ok T ∧
+  inferX 4 [(.var 0 0, 2)] [none]
+    (.letg (.cons 7 .int (.lit 2) .nil) (ushift 0 1 (.letg ds (.var 0 1)))) = .ok T' ∧
+  whnfX 4 [none] T = some (.lit 1) ∧ whnfX 5 [none] T' = some (.lit 2) ∧
+  convX 6 [none] T' T = some false ∧
+  (Conv [none] T' T → Conv [none] (.lit 2) (.lit 1))
+theorem C19_typing_unused_def_ctx_witness : C19_typing_unused_def_ctx_witness_stmt := by
+  refine ⟨by rfl, by rfl, by rfl, by rfl, by rfl, fun h => ?_⟩
+  have h1 : whnfX 4 [none] (.letg (.cons 1 .int (.lit 1) .nil) (.var 0 0)) = some (.lit 1) := by rfl
+  have h2 : whnfX 5 [none] (.letg (.cons 7 .int (.lit 2) .nil)
+      (.letg (.cons 1 .int (.lit 1) .nil) (.var 0 1))) = some (.lit 2) := by rfl
+  exact .trans (.symm (TypingSound.whnfX_conv h2)) (.trans h (TypingSound.whnfX_conv h1))
+
+/-- The corrected statement: the offsets of both contexts are in range (`off ≤ i + 1` for the entry at
+position `i` — true of every context the checker builds from the empty one: `λ`/`Π` push offset `0`,
+a group of `n` definitions pushes offsets `n, …, 1` at positions `n-1, …, 0`).  Then `inferX` is stable
+under weakening (`RewriteTyping.inferX_wk`: insert an entry at depth `k`, lift the term at cutoff `k`,
+the computed type is lifted), the group with the unused definition gets the type
+`(u : int = n; T↑)`, and that unfolds to `T`. -/
+def C19_typing_unused_def_fixed_stmt : Prop :=
+  ∀ (f : Nat) (Γ : TCtxX) (Δ : DCtxX) (u : Name) (n : Int) (e T : Tm), e.holeFree = true →
+    (∀ p ∈ Γ, p.1.holeFree = true) → (∀ p ∈ Δ, ∀ d o, p = some (d, o) → d.holeFree = true) →
+    (∀ i ty off, Γ[i]? = some (ty, off) → off ≤ i + 1) →
+    (∀ i d off, Δ[i]? = some (some (d, off)) → off ≤ i + 1) →
+    inferX f Γ Δ e = .ok T →
+    ∃ g T', inferX g Γ Δ (.letg (.cons u .int (.lit n) .nil) (ushift 0 1 e)) = .ok T' ∧ Conv Δ T' T
+theorem C19_typing_unused_def_fixed : C19_typing_unused_def_fixed_stmt := by
+  intro f Γ Δ u n e T he hΓ hD wΓ wΔ h
+  exact ⟨f + 2, _, RewriteTyping.unused_def_infer u n he hΓ hD wΓ wΔ h,
+    RewriteTyping.unused_def_conv Δ u .int (.lit n) T⟩
+
+def C19_typing_names_stmt : Prop :=
+  ∀ (f : Nat) (Γ : TCtxX) (Δ : DCtxX) (e e' : Tm), eraseNames e = eraseNames e' →
+    (inferX f Γ Δ e).toOption.map eraseNames = (inferX f Γ Δ e').toOption.map eraseNames
+theorem C19_typing_names : C19_typing_names_stmt := by
+  intro f Γ Δ e e' h
+  have h1 := eraseNames_inferX f Γ Δ e
+  have h2 := eraseNames_inferX f Γ Δ e'
+  rw [h] at h1
+  rw [h1] at h2
+  revert h2
+  cases inferX f Γ Δ e <;> cases inferX f Γ Δ e' <;> simp [Except.map, Except.toOption]
